@@ -210,6 +210,8 @@ pub struct Ctx {
     pub stop: AtomicBool,
     pub start: Instant,
     pub printed_known: Mutex<BTreeSet<String>>,
+    /// streams whose saved replays already ran in this process
+    pub replayed_streams: Mutex<BTreeSet<String>>,
     /// env recorded into replay files (configuration of this process)
     pub env_for_replay: BTreeMap<String, String>,
 }
@@ -249,6 +251,7 @@ impl Ctx {
             stop: AtomicBool::new(false),
             start: Instant::now(),
             printed_known: Mutex::new(BTreeSet::new()),
+            replayed_streams: Mutex::new(BTreeSet::new()),
             env_for_replay,
         }
     }
@@ -344,6 +347,9 @@ impl Ctx {
         T: Debug + Serialize + DeserializeOwned,
         F: Fn(&T, &mut Case) -> Result<(), String> + Sync,
     {
+        if !self.replayed_streams.lock().unwrap().insert(stream.to_string()) {
+            return;
+        }
         let dir = self.replay_dir();
         let Ok(rd) = std::fs::read_dir(&dir) else { return };
         let mut files: Vec<PathBuf> = rd.filter_map(|e| e.ok().map(|e| e.path())).filter(|p| p.extension().map(|e| e == "json").unwrap_or(false)).collect();
